@@ -102,6 +102,13 @@ Proof.
   destruct (hl + zlen b <? hl + 8) eqn:E1.
   - replace (8 <=? zlen b) with false by lia. reflexivity.
   - replace (8 <=? zlen b) with true by lia. cbn [andb].
+    change off_libwifi_logical_link_ctrl__dsap with 0.
+    change off_libwifi_logical_link_ctrl__ssap with 1.
+    change off_libwifi_logical_link_ctrl__control with 2.
+    rewrite (rdb_one b 0), (rdb_one b 1), (rdb_one b 2) by zl. cbn [bind].
+    destruct (znth b 0 =? 170); cbn [negb andb]; [|reflexivity].
+    destruct (znth b 1 =? 170); cbn [negb andb]; [|reflexivity].
+    destruct (znth b 2 =? 3); cbn [negb andb]; [|reflexivity].
     rewrite rdb_slice by zl. cbn [bind].
     rewrite slice3 by zl. change (3 + 1 + 1) with 5. change (3 + 1) with 4.
     destruct (list_eq_dec Z.eq_dec [znth b 3; znth b 4; znth b 5] [0; 0; 0]) as [e|ne].
